@@ -285,3 +285,43 @@ def parse_chain(o):
         n, v = e.split(":")
         out.append((int(n), untok(v)))
     return int(m.group(1)), out
+
+
+def default_port(sch):
+    return {0: 5683, 1: 5684, 2: 5683, 3: 5684, 4: 80, 5: 443, 6: 80, 7: 443}[sch]
+
+
+def lenient_decode(b):
+    out = bytearray()
+    i = 0
+    hexd = b"0123456789abcdefABCDEF"
+    while i < len(b):
+        if b[i] == 0x25 and i + 2 < len(b) and b[i + 1] in hexd and b[i + 2] in hexd:
+            out.append(int(b[i + 1:i + 3], 16))
+            i += 3
+        else:
+            out.append(b[i])
+            i += 1
+    return bytes(out)
+
+
+def expected_into(parts, dst, create, spec):
+    """RFC 7252 6.4 steps 5-9 on the split URI; spec = 'path=<list> query=<list>' from the extracted
+    specification; None when path or query has a malformed escape (then only the tie applies)"""
+    m = re.match(r"path=(\S*) query=(\S*)$", spec)
+    po, qo = parse_spec_list(m.group(1)), parse_spec_list(m.group(2))
+    if po is None or qo is None:
+        return None
+    sch, host, port, path, query = parts
+    out = []
+    unix = host[:3] in (b"%2F", b"%2f") or host[:1] == b"/"
+    if create and not unix:
+        if dst != "-" and host:
+            bare = host.split(b"%")[0]
+            if bare != dst.encode():
+                low = bytes(c + 32 if 65 <= c <= 90 else c for c in lenient_decode(host))
+                out.append((3, low))
+        if port != default_port(sch):
+            out.append((7, b"" if port == 0 else bytes([port]) if port < 256 else bytes([port >> 8, port & 255])))
+    out += [(11, v) for v in po] + [(15, v) for v in qo]
+    return out
